@@ -131,6 +131,8 @@ def rows_to_sched(prefix):
             steps.append({"op": ev})
         elif ev == "Arrive":
             steps.append({"op": ev, "p": r["p"], "i": r["i"], "b": r["b"], "kind": r["kind"]})
+        elif ev == "ChunkSend":      # mode F line: replayed deterministically as an arrival
+            steps.append({"op": "Arrive", "p": r["p"], "i": r["i"], "b": r["b"], "kind": "ok"})
         elif ev == "Provider":
             steps.append({"op": ev, "which": r["which"], "ans": r["ans"]})
         elif ev == "Offer":
@@ -139,6 +141,11 @@ def rows_to_sched(prefix):
             steps.append({"op": ev, "v": r["v"], "rf": r["rf"], "rs": r["rs"]})
         elif ev == "Info":
             steps.append({"op": ev, "info": r["ans"]})
+    if not any(x["op"] == "Start" for x in steps):   # mode F runs have no Start line
+        k = 0
+        while k < len(steps) and steps[k]["op"] == "AddSnapshot":
+            k += 1
+        steps.insert(k, {"op": "Start"})
     return {"id": "replay", "steps": steps}
 
 
@@ -190,7 +197,7 @@ def add_violations(verdict, v):
         verdict.add(sig, {"failing_step": row, "prefix": x["prefix"], "tlc": {"inv": x["inv"], "class": x["class"]}})
 
 
-def run(ctx):
+def run(ctx, skip_exhaustive=False):
     quick = ctx.tier == "quick"
     ctx.spec_copy()          # not thread safe on first use
     pool = ThreadPoolExecutor(max_workers=3)
@@ -198,9 +205,9 @@ def run(ctx):
     # ---- 1. design spec, exhaustive facets ------------------------------------------------
     if quick:
         facets = [
-            ("C14_chunks.cfg", {"MaxArrive": 3, "MaxBad": 2}),
-            ("C14_pool.cfg", {"MaxChurn": 2, "MaxBad": 3}),
-            ("C14_twin.cfg", {"MaxChurn": 2, "MaxBad": 2}),
+            ("C14_chunks.cfg", {"MaxArrive": 3, "MaxBad": 1}),
+            ("C14_pool.cfg", {"MaxChurn": 2, "MaxBad": 2}),
+            ("C14_twin.cfg", {"MaxChurn": 2, "MaxBad": 1}),
             ("C14_fetch.cfg", {"MaxArrive": 2, "MaxBad": 1}),
             ("C14_small.cfg", {"MaxChurn": 1, "MaxArrive": 2, "MaxBad": 1}),
         ]
@@ -220,7 +227,7 @@ def run(ctx):
         return ctx.tlc("C14_sync", cfg, must_pass=True, timeout=1500 if quick else 3000, label=base[:-4], workers=4,
                        heap="5g")
 
-    ex_futs = [pool.submit(exhaustive, it) for it in facets]
+    ex_futs = [pool.submit(exhaustive, it) for it in ([] if skip_exhaustive else facets)]
 
     # ---- 2. non-vacuity: every weakened spec must be refuted (counterexamples become schedules)
     def weak(name):
@@ -252,7 +259,7 @@ def run(ctx):
     if quick:
         graphs = [
             ("C14_chunks.cfg", "g_chunks", {"NChunks1": 2, "MaxArrive": 2, "MaxBad": 1}),
-            ("C14_pool.cfg", "g_pool", {"MaxChurn": 1, "MaxBad": 1, "InitPool": "C14_PoolBoth"}),
+            ("C14_gpool.cfg", "g_pool", {"MaxBad": 1}),
             ("C14_fetch.cfg", "g_fetch", {"Fetchers": 1, "MaxArrive": 1, "MaxBad": 1}),
         ]
     else:
@@ -299,7 +306,7 @@ def run(ctx):
 
     # ---- 6. replay on the real code
     nrandom = 150 if quick else 6000
-    nfree = 0
+    nfree = 150 if quick else 2000
     rows_d, _unused, sum_d = run_harness(ctx, fast, {"scheds": scheds, "random_d": nrandom, "free_f": 0, "par": 8}, "d")
     rows_f = []
     sum_f = {}
@@ -357,6 +364,7 @@ def run(ctx):
         "schedules_cut_short": sum_d.get("skipped_runs"),
         "schedule_steps_not_applicable": sum_d.get("skipped_steps"),
         "schedule_cut_reasons": sum_d.get("skips"),
+        "schedule_cut_examples": sum_d.get("skip_examples"),
         "simulated_behaviours": nsimb,
         "random_runs": nrandom,
         "free_running_runs": nfree,
